@@ -194,3 +194,144 @@ def new_result():
 
 def mech_of(oracle):
     return oracle
+
+
+# ---------------------------------------------------------------------------
+# shrinking a failing Tasklang program (for the replay file; the verdict never depends on it)
+
+
+def _blocks(prog):
+    """Yield every statement list of the program (node bodies and nested blocks)."""
+    def walk(block):
+        yield block
+        for st in block:
+            if st[0] == "try":
+                for b in walk(st[1]):
+                    yield b
+                for b in walk(st[3]):
+                    yield b
+            elif st[0] == "with":
+                for b in walk(st[2]):
+                    yield b
+
+    for node in prog["nodes"]:
+        for b in walk(node["body"]):
+            yield b
+
+
+def _structs(prog):
+    def walk(s):
+        yield s
+        if s[0] in ("tuple", "list"):
+            for c in s[1]:
+                for x in walk(c):
+                    yield x
+        elif s[0] == "dict":
+            for _k, c in s[1]:
+                for x in walk(c):
+                    yield x
+
+    for b in _blocks(prog):
+        for st in b:
+            if st[0] == "yield":
+                for s in walk(st[1]):
+                    yield s
+
+
+def _candidates(prog):
+    import copy
+
+    # 1. drop a fault
+    for key in ("faults", "flush_faults", "ctx_faults"):
+        for k in list((prog.get(key) or {}).keys()):
+            c = copy.deepcopy(prog)
+            del c[key][k]
+            yield c
+    # 2. delete a statement / unwrap a compound statement
+    nblocks = sum(1 for _ in _blocks(prog))
+    for bi in range(nblocks):
+        blk = list(_blocks(prog))[bi]
+        for si in range(len(blk)):
+            c = copy.deepcopy(prog)
+            cb = list(_blocks(c))[bi]
+            st = cb[si]
+            del cb[si]
+            yield c
+            if st[0] in ("try", "with"):
+                c2 = copy.deepcopy(prog)
+                cb2 = list(_blocks(c2))[bi]
+                inner = cb2[si][1] if st[0] == "try" else cb2[si][2]
+                cb2[si : si + 1] = inner
+                yield c2
+    # 3. simplify yielded structures
+    nst = sum(1 for _ in _structs(prog))
+    for i in range(nst):
+        s = list(_structs(prog))[i]
+        if s[0] in ("tuple", "list", "dict"):
+            kids = s[1] if s[0] != "dict" else [kv[1] for kv in s[1]]
+            for j in range(len(kids)):
+                c = copy.deepcopy(prog)
+                cs = list(_structs(c))[i]
+                del cs[1][j]
+                yield c
+            for j in range(len(kids)):
+                c = copy.deepcopy(prog)
+                cs = list(_structs(c))[i]
+                kid = cs[1][j] if cs[0] != "dict" else cs[1][j][1]
+                cs[:] = kid
+                yield c
+        elif s[0] == "leaf" and s[1][0] in ("call", "shared", "again", "lazy", "dbg", "err"):
+            c = copy.deepcopy(prog)
+            cs = list(_structs(c))[i]
+            cs[1] = ["const", 0]
+            yield c
+
+
+def shrink(prog, test, max_runs=600, max_seconds=12.0):
+    """Greedy structural shrinking: keep a smaller program whenever `test` still fails on it."""
+    import time
+
+    t0 = time.time()
+    runs = 0
+    cur = prog
+    progress = True
+    while progress and runs < max_runs and time.time() - t0 < max_seconds:
+        progress = False
+        for cand in _candidates(cur):
+            if runs >= max_runs or time.time() - t0 > max_seconds:
+                break
+            runs += 1
+            try:
+                if test(cand):
+                    cur = cand
+                    progress = True
+                    break
+            except BaseException:
+                continue
+    return cur, runs
+
+
+_shrinks_done = [0]
+
+
+def shrink_for(prog, how, pol, seed, monitors, oracle):
+    """Smaller program on which the same oracle still fires under the same convention and policy.
+    At most one shrink per worker process: it only serves the readability of the first replay file."""
+    if _shrinks_done[0] >= 1:
+        return None, 0
+    _shrinks_done[0] += 1
+    def test(c):
+        for node in c["nodes"]:
+            if lang.node_has_yield(node) and node["style"] in ("plain", "pureplain"):
+                node["style"] = "asynq"
+        try:
+            rt, _o, _e, _r = execute(c, how, pol, seed, monitors)
+        except lang.HarnessFault:
+            return False
+        return any(v["oracle"] == oracle for v in rt.violations)
+
+    try:
+        small, runs = shrink(prog, test)
+    except BaseException:
+        return prog, 0
+    return small, runs
